@@ -5,21 +5,10 @@
      pe_size  : pefile's end-of-PE computation (pe_file.py pe_size)
      xortool  : the key-guessing tool of powershell.py (float scoring, not modelled) *)
 From MD Require Import Lib.Base Model.Node Model.Keyword Model.Engine Model.EngineR Model.Registry.
-From MD Require Import Model.Dec.EscDec Model.Dec.StrOps Model.Dec.Shell Model.Dec.B64Hex Model.Dec.PathDec.
+From MD Require Import Model.Dec.EscDec Model.Dec.StrOps Model.Dec.Shell Model.Dec.B64Hex Model.Dec.PathDec Model.Dec.Network.
 From MD Require Import Generated.Tables.
 
-(* network.py is_domain: name '.' tld with a non-empty name and a registered (upper-cased) top-level domain *)
-Fixpoint rsplit_dot (b : bytes) (acc : bytes) : option (bytes * bytes) :=   (* scans from the right: b is reversed *)
-  match b with
-  | [] => None
-  | 46%N :: rest => Some (rev rest, acc)
-  | c :: rest => rsplit_dot rest (c :: acc)
-  end.
-Definition is_domain_default (d : bytes) : bool :=
-  match rsplit_dot (rev d) [] with
-  | None => false
-  | Some (name, tld) => match name with [] => false | _ => existsb (beqb (upper tld)) TOP_LEVEL_DOMAINS end
-  end.
+Definition is_domain_default : bytes -> bool := Network.is_domain TOP_LEVEL_DOMAINS.
 
 Section Default.
   Variable pe_size : bytes -> Z.
@@ -53,6 +42,10 @@ Section Default.
     else if beqb name (L"find_path") then find_path
     else if beqb name (L"find_windows_path") then find_windows_path is_domain_default
     else if beqb name (L"find_pe_files") then find_pe_files pe_size
+    else if beqb name (L"find_domains") then Network.find_domains TOP_LEVEL_DOMAINS root_fpos tld_fpos
+    else if beqb name (L"find_emails") then Network.find_emails TOP_LEVEL_DOMAINS
+    else if beqb name (L"find_ips") then Network.find_ips
+    else if beqb name (L"find_urls") then Network.find_urls TOP_LEVEL_DOMAINS
     else match extra name with
          | Some f => f
          | None => fun _ => Raise (L"UnmodelledDecoder")
